@@ -157,6 +157,9 @@ func c12Run(r *fw.R, d c12Desc) {
 
 	// no Origin header at all: always accepted
 	c12One(r, d, "", false, 1, "no-origin", "")
+	for _, ref := range []string{"https://evil.com/page", "http://evil.com:8080/", "https://" + d.Host + "/same", "://not a url", "null", "https://evil.com/?next=https://" + d.Host + "/"} {
+		c12One(r, d, "", false, 1, "no-origin/referer="+ref, "")
+	}
 	// several origins in one value (RFC 6454 7.1 allows a list; this server reads one origin): a foreign origin
 	// does not get in by travelling with an authorised one
 	foreignOK := false
@@ -297,6 +300,12 @@ func c12One(r *fw.R, d c12Desc, origin string, hasOrigin bool, verdict int, rel,
 	req.Host = d.Host
 	if hasOrigin {
 		req.Header.Set("Origin", origin)
+	} else if strings.HasPrefix(rel, "no-origin/") {
+		// no Origin header, but other headers that name a host: only Origin counts
+		ref := strings.TrimPrefix(rel, "no-origin/referer=")
+		req.Header.Set("Referer", ref)
+		req.Header.Set("X-Forwarded-Host", "evil.example.net")
+		req.Header.Set("Forwarded", "for=10.0.0.1;host=evil.example.net;proto=https")
 	}
 	// Every eighth request also carries headers a proxy (or an attacker) may add. Only Host and Origin
 	// count: headers naming the origin's own host must not get a foreign origin in, headers naming
